@@ -11,8 +11,8 @@ import (
 
 // ---- SUB-side overflow ------------------------------------------------------
 //
-// One context (the subject) gets a short queue (ReadQLen q >= 1; q = 0 is D8
-// and handled elsewhere) and is not read while a burst longer than q arrives.
+// One context (the subject) gets a short queue (ReadQLen q >= 1; q = 0 is the
+// subject of the q0 kind, q0_test.go) and is not read while a burst longer than q arrives.
 // A second context on the same socket keeps the default queue and must stay
 // exact.  What the subject delivers must be an order-preserving,
 // duplicate-free subsequence of its matching messages; if no more than q
